@@ -48,6 +48,8 @@ def run(ctx):
     from ..engines import provenance as PV
     PV.a1_a2_expand_yield(ctx)
     PV.a3_recording_sites(ctx)
+    PV.a5_application_discipline(ctx)
+    ctx.floor("A5", 6)
     ctx.floor("S1", 20)
     ctx.floor("S4", 8)
     ctx.floor("A3", 7)
